@@ -221,9 +221,10 @@ func exitStores(ctx *Ctx, r *Result, rule string, t *ValidatorTable) bool {
 					good, detail = false, "ACAH value rendered although no discrete request-header name is allowed (CI-7)"
 				}
 			default:
-				if hasSet || hasACAH {
-					good, detail = false, "publication of request-header names not guarded by emptiness of the set"
-				}
+				// neither `*` nor the emptiness of the collected set is known
+				// on this error-free exit: whatever it does is wrong for one of
+				// the cases (names collected and lost, or an empty set published)
+				good, detail = false, "an error-free exit neither knows that `*` was listed nor tests whether discrete names were collected: collected names would be lost (or an empty list published)"
 			}
 			if hasSet && st["&cfg.allowedReqHdrs"] != "*local<util.SortedSet>" {
 				good, detail = false, "allowedReqHdrs published from "+st["&cfg.allowedReqHdrs"]
